@@ -381,6 +381,9 @@ fn assignment_stmt(rng: &mut Rng, g: &mut Vec<Name>) -> Stmt {
             // a list: not a single constant
             if value.is_unary_level() && !value.starts_with_unary_minus() {
                 Stmt::Assign { dest, op: None, value: vec![value, num(2.0)] }
+            } else if rng.chance(1, 8) && !value.starts_with_unary_minus() {
+                // a list where a single value belongs (`let x be 1, 2`): not a single constant, never reported
+                Stmt::Assign { dest, op: None, value: vec![value, num(2.0)] }
             } else {
                 Stmt::Assign { dest, op: None, value: vec![value] }
             }
@@ -397,7 +400,17 @@ fn assignment_stmt(rng: &mut Rng, g: &mut Vec<Name>) -> Stmt {
                 Stmt::PoeticNum { dest, rhs: PoeticRhs::Lit(vec![PoeticElem::Word("a".into()), PoeticElem::Word("rose".into())]) }
             }
         }
-        8 => Stmt::Push { array: pvar(&name), value: Some(PushRhs::List(vec![value])) },
+        8 => {
+            // the target of a push is any primary expression
+            let array = match rng.below(8) {
+                0 => Prim::Pop(Box::new(pvar(&name))),
+                1 => Prim::Lit(Lit::Num(5.0)),
+                2 => Prim::Sub(Box::new(pvar(&name)), Box::new(Prim::Lit(Lit::Num(0.0)))),
+                3 => Prim::Ident(Ident::Pronoun),
+                _ => pvar(&name),
+            };
+            Stmt::Push { array, value: Some(PushRhs::List(vec![value])) }
+        }
         _ => Stmt::Push {
             array: pvar(&name),
             value: Some(if rng.coin() {
